@@ -77,17 +77,17 @@ Fixpoint sops (fuel : nat) (maxc : N) (p : sp) (wire later : bytes) (ops : list 
         if (code =? 1) && negb (len (stream_buffer p) =? 0) then [[10]] ++ sops f maxc p wire later rest   (* skipped: illegal *)
         else
         match sparse maxc p (take n wire) dest with
-        | StPanic _ => [[888888]]
+        | StPanic _ => [[18446744073710440504]]
         | StOk p' s => status_obs 1 [] s p' ++ sops f maxc p' (drop n wire) later rest
         | StErr p' e s => status_obs 2 (perr_code e) (mkStatus 0 false 0 []) p' ++ sops f maxc p' (drop n wire) later rest
         end
       | 2 => let p' := consume_stream p a1 in [[3]; stream_buffer p'] ++ sops f maxc p' wire later rest
       | 3 => let p' := compress p in
-             if invars_ok p' then [[4; sinput_space p']; stream_buffer p'] ++ sops f maxc p' wire later rest else [[888888]]
+             if invars_ok p' then [[4; sinput_space p']; stream_buffer p'] ++ sops f maxc p' wire later rest else [[18446744073710440504]]
       | 4 => let p' := consume_output p a1 in [[5]; output_buffer p'] ++ sops f maxc p' wire later rest
       | 5 =>
         match set_stream p (if a1 =? 0 then None else Some a1) with
-        | SetPanic => [[888888]]
+        | SetPanic => [[18446744073710440504]]
         | SetErr => [[6; 0; stream_code (stream p)]; stream_buffer p] ++ sops f maxc p wire later rest
         | SetOk p' => [[6; 1; stream_code (stream p')]; stream_buffer p'] ++ sops f maxc p' wire later rest
         end
@@ -95,7 +95,7 @@ Fixpoint sops (fuel : nat) (maxc : N) (p : sp) (wire later : bytes) (ops : list 
         match set_stream p None with
         | SetOk p1 =>
           match to_boundary (length wire + 4) maxc p1 wire [] with
-          | None => [[888888]]
+          | None => [[18446744073710440504]]
           | Some (p2, wire2, out2, code) =>
             if negb (code =? 0) then [[7; code]; out2]
             else
@@ -108,13 +108,13 @@ Fixpoint sops (fuel : nat) (maxc : N) (p : sp) (wire later : bytes) (ops : list 
                               ++ [raw_obs p3] ++ sops f maxc p3 unfed (drop a1 later) rest
                   | inr e => [[7; 4] ++ perr_code e; out2; out3]
                   end
-                | _ => [[888888]]
+                | _ => [[18446744073710440504]]
                 end
               | ConvInterrupted => [[7; 5]]
-              | ConvPanic => [[888888]]
+              | ConvPanic => [[18446744073710440504]]
               end
           end
-        | _ => [[888888]]
+        | _ => [[18446744073710440504]]
         end
       | 8 => match into_input p with Some b => [[8; 1]; b] | None => [[8; 0]] end
       | _ => [[999996]]
@@ -135,12 +135,12 @@ Definition run_str_run (a : args) : args :=
                ++ sops (length ops + 2) maxc p unfed later ops
     | inr e => [[2] ++ perr_code e; out]
     end
-  | _ => [[888888]]
+  | _ => [[18446744073710440504]]
   end.
 
 (* the finite tables of C18 *)
 Definition ord_code (o : option ord) : N :=
-  match o with None => 888888 | Some Lt => 0 | Some Eq => 1 | Some Gt => 2 end.
+  match o with None => 18446744073710440504 | Some Lt => 0 | Some Eq => 1 | Some Gt => 2 end.
 Definition run_cmp_streams (a : args) : args :=
   let role := argn a 0 in let exp := argn a 2 in
   if negb (exp =? 0) && negb (memN exp (role_input_streams role)) then [[777777]]
@@ -218,7 +218,7 @@ Definition run_str_refine (a : args) : args :=
     | inl p => [refine_ops (length ops + 2) maxc p unfed ops 0]
     | inr e => [[3]]
     end
-  | _ => [[888888]]
+  | _ => [[18446744073710440504]]
   end.
 
 (* ---- lockstep check of the step statements of Parser/StreamSpec.v on the abstract machine ---- *)
@@ -289,5 +289,5 @@ Definition run_str_inv (a : args) : args :=
     | inl p => [inv_ops (length ops + 2) maxc (abs p) unfed ops 0]
     | inr e => [[3]]
     end
-  | _ => [[888888]]
+  | _ => [[18446744073710440504]]
   end.
